@@ -356,7 +356,7 @@ def rule_int_vars(ctx):
         """one loop over `outer`, and for its elements satisfying `tests` a loop over the variables of `src`, adding each one's name"""
         vs = ("call", "Term::variables", (src,))
         return ((outer, vs), ((frozenset(tests), ("fieldof", ("at", vs), "0")),))
-    eq_rel = ("cond", ("bin", "Eq") + tuple(sorted((("ctor", "Relation::Equal", ()), ("fieldof", CMP, "relation")), key=leaves.stable_key)), True)
+    eq_rel = ("is", ("fieldof", CMP, "relation"), "Relation::Equal")      # `c.relation == Relation::Equal` or `matches!(c.relation, Relation::Equal)`
     second = ("cond", ("call", "natural::is_term_regular_of_second_kind", (("fieldof", CMP, "rhs"),)), True)
     ref = {
         "unary-operand": names_of(TERMS, [("is", TERM, "Term::UnaryOperation")], ("proj", TERM, (("Term::UnaryOperation", "arg"),))),
